@@ -123,6 +123,7 @@ func c10Document(n int, name func(string) string, allowBad bool, prev0 int) *c10
 		badAt = int(verifChoose("badAt", 0, uint(n)))
 	}
 	prev := prev0 // depth of the item row before the document (-1: none)
+	blockHasChild := false
 	ind := func(k int) string { return c10Rep("  ", k) }
 	for i := 0; i < n; i++ {
 		if i == blankAt {
@@ -135,9 +136,12 @@ func c10Document(n int, name func(string) string, allowBad bool, prev0 int) *c10
 				d.rows = append(d.rows, verifRow("x", 2, 0, name("name")))
 			case 1: // empty item text
 				d.rows = append(d.rows, verifRow("-", 3, 0, ""))
-			case 2: // nested two levels deeper than the row before (or below no root at all)
-				if d.sharp && prev < 0 {
-					verifAssume(false) // before the first heading a first-column list row is a root, not a child
+			case 2: // nested two levels deeper than the row before
+				// only once the current root block has an indented row: the first indented row of a document (simple
+				// mode) resp. of a block (massive mode, one parser per block) defines the unit and is at depth 1 by
+				// definition, whatever its width
+				if !blockHasChild {
+					verifAssume(false)
 				}
 				k := prev + 2
 				nm := name("name")
@@ -168,6 +172,10 @@ func c10Document(n int, name func(string) string, allowBad bool, prev0 int) *c10
 		}
 		if dep == 0 {
 			d.nroots++
+			blockHasChild = false
+		} else if !d.sharp || dep >= 2 {
+			// a row that is really indented (under # roots the first list level is not): the unit is known now
+			blockHasChild = true
 		}
 		d.lines = append(d.lines, vLine{uint(dep), nm})
 		prev = dep
@@ -210,13 +218,19 @@ func VerifC10() {
 	ok := true
 	verifContext("C10.run")
 	switch mode {
-	case 0, 1, 2: // text, JSON, dry-run report
+	case 0, 1, 2: // text, JSON or YAML records, dry-run report (with an opaque extension)
 		var opts []Option
+		enc := encJSON
+		var exts []string
 		if mode == 1 {
-			opts = append(opts, WithEncodeJSON())
+			if verifFlag("yaml") {
+				enc = encYAML
+			}
+			opts = append(opts, encOption(enc))
 		}
 		if mode == 2 {
-			opts = append(opts, WithDryRun())
+			exts = []string{verifStr("ext")}
+			opts = append(opts, WithDryRun(), WithFileExtensions(exts))
 		}
 		w1, w2 := newVerifWriter(), newVerifWriter()
 		e1 = OutputFromMarkdown(w1, &verifReader{lines: doc.rows}, opts...)
@@ -227,20 +241,22 @@ func VerifC10() {
 				switch mode {
 				case 0:
 					blocks = append(blocks, specRender(nodes, r, dLD, dLI, dMD, dMI))
-				case 1:
-					blocks = append(blocks, recText(recOfV(nodes, r))+"\n")
 				case 2:
-					dirs := 0
+					dirs, fls := 0, 0
 					for i := range nodes {
 						if c08RootOf(nodes, i) == r {
-							dirs++
+							if wantKind(len(nodes[i].children) == 0, nodes[i].name, exts) == 2 {
+								fls++
+							} else {
+								dirs++
+							}
 						}
 					}
-					blocks = append(blocks, specRender(nodes, r, dLD, dLI, dMD, dMI)+"\n"+c09Itoa(dirs)+" directories, 0 files\n")
+					blocks = append(blocks, specRender(nodes, r, dLD, dLI, dMD, dMI)+"\n"+c09Itoa(dirs)+" directories, "+c09Itoa(fls)+" files\n")
 				}
 			}
 			if mode == 1 {
-				ok = encMatchesAnyOrder(encJSON, w2.out, recsOfForest(nodes, roots)) && encMatches(encJSON, w1.out, recsOfForest(nodes, roots))
+				ok = encMatchesAnyOrder(enc, w2.out, recsOfForest(nodes, roots)) && encMatches(enc, w1.out, recsOfForest(nodes, roots))
 			} else {
 				verifObserve("simple", w1.out)
 				ok = c10Perm(w2.out, blocks) && c10Perm(w1.out, blocks)
@@ -265,9 +281,10 @@ func VerifC10() {
 			ok = c10Perm(s1, blocks) && c10Perm(s2, blocks)
 		}
 	case 4: // mkdir: same file-system state
+		exts := []string{verifStr("ext")}
 		vfsReset()
 		vfsSeal()
-		e1 = MkdirFromMarkdown(&verifReader{lines: doc.rows}, WithTargetDir(vfsTarget()))
+		e1 = MkdirFromMarkdown(&verifReader{lines: doc.rows}, WithTargetDir(vfsTarget()), WithFileExtensions(exts))
 		c1 := vfsCount()
 		k1 := make([]int, len(nodes))
 		for i := range nodes {
@@ -275,11 +292,11 @@ func VerifC10() {
 		}
 		vfsReset()
 		vfsSeal()
-		e2 = MkdirFromMarkdown(&verifReader{lines: doc.rows}, WithTargetDir(vfsTarget()), WithMassive(ctx))
+		e2 = MkdirFromMarkdown(&verifReader{lines: doc.rows}, WithTargetDir(vfsTarget()), WithFileExtensions(exts), WithMassive(ctx))
 		if e1 == nil && e2 == nil {
 			ok = vfsCount() == c1
 			for i := range nodes {
-				if vfsKind(nodeRel(nodes, i)) != k1[i] || k1[i] != 1 {
+				if vfsKind(nodeRel(nodes, i)) != k1[i] || k1[i] != wantKind(len(nodes[i].children) == 0, nodes[i].name, exts) {
 					ok = false
 				}
 			}
